@@ -762,6 +762,30 @@ func (fr *Frame) loopHeader(b *ssa.BasicBlock, li *loopInfo, entryReach string, 
 		}
 	}
 	invs := fr.loopInvariants(b, li, spec)
+	// automatic frame invariant: inside the loop nothing outside the function's modifies clause changes
+	if fr.allow != nil && fr.top {
+		var ms []string
+		for bi := range li.blocks {
+			for c := range fr.written[bi] {
+				ms = append(ms, c)
+			}
+		}
+		sort.Strings(ms)
+		seen := map[string]bool{}
+		for _, c := range ms {
+			if seen[c] || c == "WM" || c == "*" || strings.HasPrefix(c, "VIS_") {
+				continue
+			}
+			seen[c] = true
+			comp := c
+			so := u.compSort[c]
+			ref := u.comp(entry, comp, so)
+			res := &invariant{text: "frame of " + comp + " (automatic)", auto: func(env *SpecEnv) string {
+				return frameFormula(comp, u.comp(env.cur, comp, so), ref, fr.allow[comp])
+			}}
+			invs = append(invs, res)
+		}
+	}
 	for k, inv := range invs {
 		env := fr.loopEnv(b, li, entry, entryVals)
 		f := inv.eval(env)
@@ -1001,28 +1025,67 @@ func (fr *Frame) resolveLocal(name string, at *ssa.BasicBlock, st *State) *Val {
 			}
 		}
 	}
-	var best *nameBinding
+	// Reaching definition: among all values ever bound to the name (debug references and phis carrying
+	// the variable's name), the one whose definition most closely dominates the start of block at.
+	type cand struct {
+		v   ssa.Value
+		blk *ssa.BasicBlock
+		idx int
+	}
+	var cands []cand
+	add := func(v ssa.Value) {
+		switch x := v.(type) {
+		case *ssa.Const:
+			cands = append(cands, cand{v, fr.fn.Blocks[0], -1})
+		case *ssa.Parameter:
+			cands = append(cands, cand{v, fr.fn.Blocks[0], -2})
+		case ssa.Instruction:
+			blk := x.Block()
+			if blk == nil {
+				return
+			}
+			idx := 0
+			for k, in := range blk.Instrs {
+				if in == x {
+					idx = k
+				}
+			}
+			if blk == at {
+				if _, isPhi := v.(*ssa.Phi); !isPhi {
+					return
+				}
+			} else if !blk.Dominates(at) {
+				return
+			}
+			cands = append(cands, cand{v, blk, idx})
+		}
+	}
 	for i := range fr.names[name] {
 		nb := &fr.names[name][i]
-		if nb.isAddr {
-			continue
+		if !nb.isAddr {
+			add(nb.val)
 		}
-		if nb.block != at && !nb.block.Dominates(at) {
-			continue
+	}
+	for _, b := range fr.fn.Blocks {
+		for _, ins := range b.Instrs {
+			if p, ok := ins.(*ssa.Phi); ok && p.Comment == name {
+				add(p)
+			}
 		}
-		if nb.block == at {
-			continue // defined inside the header itself, after the phis
-		}
-		if best == nil || best.block.Dominates(nb.block) {
-			best = nb
+	}
+	var best *cand
+	for i := range cands {
+		c := &cands[i]
+		if best == nil || (best.blk != c.blk && best.blk.Dominates(c.blk)) || (best.blk == c.blk && c.idx > best.idx) {
+			best = c
 		}
 	}
 	if best != nil {
-		if _, defined := fr.vals[best.val]; defined {
-			return fr.val(best.val)
+		if _, defined := fr.vals[best.v]; defined {
+			return fr.val(best.v)
 		}
-		if _, isConst := best.val.(*ssa.Const); isConst {
-			return fr.val(best.val)
+		if _, isConst := best.v.(*ssa.Const); isConst {
+			return fr.val(best.v)
 		}
 	}
 	return nil
